@@ -246,7 +246,7 @@ def run_example(ex):
             if out_list is None or (reuse and "out" not in kw):
                 out_list = ml
                 out_proj = t["family"]
-            last = (ml, o["morphemes"], t["subset"], t["proj"], text, t["family"])
+            last = (ml, o["morphemes"], t["subset"], t["proj"], text, t["family"], t)
         elif kind == "tokenize_rejected":
             # an input beyond the 49,149 byte limit: both sides must refuse it, and the tokenizer must
             # be as usable afterwards as before (mode override restored)
@@ -269,7 +269,7 @@ def run_example(ex):
         elif kind == "split":
             if last is None or len(last[0]) == 0:
                 continue
-            ml, om, subset, proj, text, family = last
+            ml, om, subset, proj, text, family, src_tok = last
             i = op[1] % len(ml)
             mode = op[2]
             add_single = op[4]
@@ -292,6 +292,15 @@ def run_example(ex):
             else:
                 want = []
             compare_list(res, want, subset, proj, text, "split(%s) of morpheme %d of %r" % (mode, i, text))
+            if op[3] == 0 and op[1] % 3 == 0 and res is not ml and res is not out_list:
+                # the split result becomes the out= list of another analysis: the list it was split from must still
+                # report its own text (a split result shares the text of its source until it gets one of its own)
+                other = "あa" if text != "あa" else "京"
+                try:
+                    src_tok["tok"].tokenize(other, out=res)
+                except Exception:
+                    pass
+                compare_list(ml, om, subset, proj, text, "list of %r after a split result of it was reused as out= of tokenize(%r)" % (text, other))
         elif kind == "lookup":
             surface = op[1]
             kw = {}
